@@ -497,9 +497,12 @@ SPECS.append(_CustomCheck('C07', 'Forest.lean', _lean_check('Forest.lean'), file
 def _register_dispatcher_cache_under_C07():
     import copy
     from contracts import core_handlers as ch
-    for s in ch.SPECS:
-        if getattr(s, 'name', '') == 'Manager._dispatcher[cache]' and s.prop == 'C01':
+    # ... and so are the invalidation duties at the end of an unregistration and at a registration: the component that becomes
+    # its own root again must not keep dispatching from the handler list of its earlier life as a root (a component that was
+    # unregistered from IT meanwhile would still receive its events; one that joined it would be cut off)
+    for s in list(ch.SPECS):
+        if getattr(s, 'name', '') in ('Manager._dispatcher[cache]', '_do_prepare_unregister_complete[cache]', 'register[cache]') \
+                and s.prop == 'C01':
             c = copy.copy(s)
             c.prop = 'C07'
             SPECS.append(c)
-            return
